@@ -552,4 +552,13 @@ def main(argv):
     if prop not in props.PROPS:
         print(f"unknown property {prop}")
         return 2
-    return props.run_check(prop, tier, seed, replay)
+    # two runs of ONE check share .work/<id> and replays/<id>-*: the second waits for the first
+    os.makedirs(WORK, exist_ok=True)
+    import fcntl
+    own = open(os.path.join(WORK, f"{prop}.run.lock"), "w")
+    fcntl.flock(own, fcntl.LOCK_EX)
+    try:
+        return props.run_check(prop, tier, seed, replay)
+    finally:
+        fcntl.flock(own, fcntl.LOCK_UN)
+        own.close()
